@@ -437,3 +437,197 @@ Proof.
     apply tok_prefix_none in E1. destruct E1 as [E|[E|E]]; [subst b0; exact I|discriminate E|].
     destruct b0; [exact I|exact E].
 Qed.
+
+(* ------------------------------------------------------------------ *)
+(* the transaction                                                      *)
+
+(* the action a cache-manager answer is about *)
+Definition answered_action (r : result) : option bytes :=
+  match r with
+  | RAuthReq n => Some n
+  | RReport n => Some n
+  | RIndex => Some kw_index
+  | _ => None
+  end.
+
+Lemma answered_inv e menu pl rules q n :
+  answered_action (handle e menu pl rules q) = Some n ->
+  exists a, parse_url menu pl (q_path q) = UAction a /\ a_name a = n.
+Proof.
+  unfold handle.
+  destruct (negb (url_check_request _ _)); [discriminate|].
+  destruct (negb (access_allowed _ _ _)); [discriminate|].
+  destruct (negb (is_internal e q)); [discriminate|].
+  destruct (negb (for_cache_manager q)); [discriminate|].
+  destruct (parse_url menu pl (q_path q)) as [a| |]; try discriminate.
+  intros H. exists a. split; [reflexivity|].
+  destruct (check_password pl a _); [cbn in H; congruence|].
+  destruct (list_eqb (a_name a) kw_index) eqn:E; cbn in H; [apply leqb_true in E|]; congruence.
+Qed.
+
+Lemma report_inv e menu pl rules q n :
+  handle e menu pl rules q = RReport n ->
+  exists a, parse_url menu pl (q_path q) = UAction a /\ a_name a = n
+            /\ check_password pl a (supplied_password (q_auth q)) = false /\ n <> kw_index.
+Proof.
+  unfold handle.
+  destruct (negb (url_check_request _ _)); [discriminate|].
+  destruct (negb (access_allowed _ _ _)); [discriminate|].
+  destruct (negb (is_internal e q)); [discriminate|].
+  destruct (negb (for_cache_manager q)); [discriminate|].
+  destruct (parse_url menu pl (q_path q)) as [a| |]; try discriminate.
+  destruct (check_password pl a _) eqn:Ec; [discriminate|].
+  destruct (list_eqb (a_name a) kw_index) eqn:E; [discriminate|]. intros H. injection H as H.
+  exists a. repeat split; try assumption. subst n. apply leqb_false, E.
+Qed.
+
+Definition path_ok (q : request) : Prop := lenN (q_path q) < npos.
+
+(* the action performed is the one the URL names, and it is in the table *)
+Lemma report_names_action e menu pl rules q n :
+  handle e menu pl rules q = RReport n -> path_ok q ->
+  (exists a, In a menu /\ a_name a = n)
+  /\ exists rest, q_path q = mgr_prefix ++ n ++ rest
+                  /\ forallb field_char n = true /\ n <> []
+                  /\ match rest with [] => True | c :: _ => field_char c = false end.
+Proof.
+  intros H Hlen. destruct (report_inv _ _ _ _ _ _ H) as (a & Hp & Hn & _ & Hidx).
+  destruct (parse_url_action _ _ _ _ Hp Hlen) as (Hin & _ & nm & rest & Hpath & Hfc & Hstop & Hname).
+  split; [exists a; auto|].
+  destruct nm as [|c nm]; [congruence|]. rewrite Hn in Hname. rewrite Hname.
+  exists rest. repeat split; try assumption. discriminate.
+Qed.
+
+(* disabled and hidden actions: no answer that involves the action at all (they yield 404) *)
+Lemma answered_not_disabled_nor_hidden e menu pl rules q n :
+  answered_action (handle e menu pl rules q) = Some n -> path_ok q ->
+  (forall e0, first_covering pl n e0 -> pe_passwd e0 <> kw_disable)
+  /\ (uncovered pl n -> exists a, In a menu /\ a_name a = n /\ a_pwreq a = false).
+Proof.
+  intros H Hlen. destruct (answered_inv _ _ _ _ _ _ H) as (a & Hp & Hn).
+  destruct (parse_url_action _ _ _ _ Hp Hlen) as (Hin & Hprot & _). subst n.
+  unfold action_protection in Hprot. split.
+  - intros e0 Hf. rewrite (passwd_get_first _ _ _ Hf) in Hprot. intros Hd. rewrite Hd in Hprot.
+    cbn in Hprot. destruct Hprot; discriminate.
+  - intros Hu. rewrite (passwd_get_uncovered _ _ Hu) in Hprot. exists a. repeat split; try assumption.
+    destruct (a_pwreq a); [destruct Hprot; discriminate|reflexivity].
+Qed.
+
+(* a report implies the password rule admitted it *)
+Lemma report_respects_passwd e menu pl rules q n :
+  handle e menu pl rules q = RReport n -> path_ok q ->
+  (forall e0, first_covering pl n e0 ->
+     pe_passwd e0 <> kw_disable
+     /\ (pe_passwd e0 = kw_none
+         \/ exists f user pass, q_auth q = Some f /\ basic_credentials f user pass
+                                /\ pass <> [] /\ cstr pass = cstr (pe_passwd e0)))
+  /\ (uncovered pl n -> exists a, In a menu /\ a_name a = n /\ a_pwreq a = false).
+Proof.
+  intros H Hlen. destruct (report_inv _ _ _ _ _ _ H) as (a & Hp & Hn & Hc & _).
+  assert (Ha : answered_action (handle e menu pl rules q) = Some n) by (rewrite H; reflexivity).
+  destruct (answered_not_disabled_nor_hidden _ _ _ _ _ _ Ha Hlen) as [Hd Hh].
+  split; [|exact Hh]. intros e0 Hf. split; [apply Hd, Hf|].
+  apply check_password_false in Hc. rewrite Hn, (passwd_get_first _ _ _ Hf) in Hc.
+  destruct Hc as [_ [Hnone|(Hpw & _ & Heq)]]; [left; exact Hnone|right].
+  destruct (supplied_password_spec _ _ eq_refl Hpw) as (f & user & Hq & Hb).
+  exists f, user, (supplied_password (q_auth q)). repeat split; assumption.
+Qed.
+
+(* ------------------------------------------------------------------ *)
+(* http_access: first matching line decides, otherwise the reverse of the last line            *)
+
+Definition rule_matches (mgr local : bool) (r : rule) : bool := forallb (atom_holds mgr local) (r_atoms r).
+
+Lemma eval_rules_first mgr local pre r post last :
+  forallb (fun x => negb (rule_matches mgr local x)) pre = true -> rule_matches mgr local r = true ->
+  eval_rules mgr local (pre ++ r :: post) last = r_allow r.
+Proof.
+  revert last. induction pre as [|x pre IH]; intros last Hpre Hr; cbn [app eval_rules].
+  - unfold rule_matches in Hr. now rewrite Hr.
+  - cbn [forallb] in Hpre. apply andb_true_iff in Hpre. destruct Hpre as [Hx Hpre].
+    unfold rule_matches in Hx. apply negb_true_iff in Hx. rewrite Hx. apply IH; assumption.
+Qed.
+
+Lemma eval_rules_none mgr local rules last :
+  forallb (fun x => negb (rule_matches mgr local x)) rules = true ->
+  eval_rules mgr local rules last =
+  match rev rules with r :: _ => negb (r_allow r) | [] => match last with Some a => negb a | None => false end end.
+Proof.
+  revert last. induction rules as [|x rules IH]; intros last H; cbn [eval_rules]; [reflexivity|].
+  cbn [forallb] in H. apply andb_true_iff in H. destruct H as [Hx H].
+  unfold rule_matches in Hx. apply negb_true_iff in Hx. rewrite Hx, (IH _ H). cbn [rev].
+  destruct (rev rules) as [|y l]; reflexivity.
+Qed.
+
+(* ------------------------------------------------------------------ *)
+(* witnesses                                                            *)
+
+Definition w_host : bytes := [118;101;114;105;102;46;116;101;115;116].            (* verif.test *)
+Definition w_env : env := mkEnv w_host 3128 true.
+Definition s_menu : bytes := [109;101;110;117].
+Definition s_info : bytes := [105;110;102;111].
+Definition s_shutdown : bytes := [115;104;117;116;100;111;119;110].
+Definition s_secret : bytes := [115;101;99;114;101;116].
+Definition w_menu : list action := [mkAct kw_index false; mkAct s_menu false; mkAct s_info false; mkAct s_shutdown true].
+Definition deny_manager_allow_all : list rule := [mkRule false [AMgr]; mkRule true [AAll]].
+
+(* GET ftp://a%2Fb@verif.test:3128/squid-internal-mgr/menu *)
+Definition w_bypass : request :=
+  mkReq MGet SFtp [97;37;50;70;98] w_host 3128
+        [47;115;113;117;105;100;45;105;110;116;101;114;110;97;108;45;109;103;114;47;109;101;110;117] None.
+(* the same request without user-info *)
+Definition w_plain : request :=
+  mkReq MGet SFtp [] w_host 3128
+        [47;115;113;117;105;100;45;105;110;116;101;114;110;97;108;45;109;103;114;47;109;101;110;117] None.
+
+Lemma w_host_ok : host_ok (e_myhost w_env).
+Proof. split; [discriminate|reflexivity]. Qed.
+
+Lemma bypass_witness :
+  host_ok (e_myhost w_env)
+  /\ is_internal w_env w_bypass = true /\ for_cache_manager w_bypass = true
+  /\ acl_manager w_bypass = false
+  /\ handle w_env w_menu [] deny_manager_allow_all w_bypass = RReport s_menu
+  /\ handle w_env w_menu [] deny_manager_allow_all w_plain = RDenied.
+Proof. split; [exact w_host_ok|]. repeat split; vm_compute; reflexivity. Qed.
+
+(* cachemgr_passwd secret info ; Authorization: Basic base64("u:secret" NUL "x") *)
+Definition w_pl : list pwent := [mkPw s_secret [s_info]].
+Definition w_nul : request :=
+  mkReq MGet SHttp [] w_host 3128
+        [47;115;113;117;105;100;45;105;110;116;101;114;110;97;108;45;109;103;114;47;105;110;102;111]
+        (Some [66;97;115;105;99;32;100;84;112;122;90;87;78;121;90;88;81;65;101;65;61;61]).
+Definition w_good : request :=
+  mkReq MGet SHttp [] w_host 3128
+        [47;115;113;117;105;100;45;105;110;116;101;114;110;97;108;45;109;103;114;47;105;110;102;111]
+        (Some [66;97;115;105;99;32;100;84;112;122;90;87;78;121;90;88;81;61]).
+Definition w_noauth : request :=
+  mkReq MGet SHttp [] w_host 3128
+        [47;115;113;117;105;100;45;105;110;116;101;114;110;97;108;45;109;103;114;47;105;110;102;111] None.
+
+Lemma nul_witness :
+  first_covering w_pl s_info (mkPw s_secret [s_info])
+  /\ handle w_env w_menu w_pl [mkRule true [AAll]] w_nul = RReport s_info
+  /\ supplied_password (q_auth w_nul) = s_secret ++ [0; 120]
+  /\ handle w_env w_menu w_pl [mkRule true [AAll]] w_good = RReport s_info
+  /\ handle w_env w_menu w_pl [mkRule true [AAll]] w_noauth = RAuthReq s_info.
+Proof.
+  split.
+  - exists [], []. repeat split; [constructor|left; left; reflexivity].
+  - repeat split; vm_compute; reflexivity.
+Qed.
+
+(* hypotheses of the main theorems are satisfiable, and the theorems are not vacuous *)
+Lemma examples :
+  path_ok w_good /\ no_userinfo w_plain /\ no_userinfo w_good
+  /\ uncovered w_pl s_menu
+  /\ handle w_env w_menu w_pl [mkRule true [AAll]] (mkReq MGet SHttp [] w_host 3128 (q_path w_bypass) None) = RReport s_menu
+  /\ handle w_env w_menu [mkPw kw_disable [s_menu]] [mkRule true [AAll]] (mkReq MGet SHttp [] w_host 3128 (q_path w_bypass) None) = RNotFound
+  /\ handle w_env w_menu [] [mkRule true [AAll]]
+       (mkReq MGet SHttp [] w_host 3128 (mgr_prefix ++ s_shutdown) (q_auth w_good)) = RNotFound.
+Proof.
+  repeat split; try (vm_compute; reflexivity).
+  - right; reflexivity.
+  - left; reflexivity.
+  - constructor; [|constructor]. intros [H|H]; cbn in H; destruct H as [H|[]]; discriminate H.
+Qed.
